@@ -8,6 +8,7 @@ import collections, json
 from vlib import common as C
 from vlib import diff as D
 from vlib import t1 as skel
+from vlib import vs, t3_unitmap
 
 
 def _retry(f, *a):
@@ -28,6 +29,7 @@ ASSUMPTIONS = [
     "client contract of the table is a hypothesis of unitmap_lockfree_get / unitmap_refines_map: no get(u) concurrent with unmap(u) or with the map(u) that creates it (guards of Model.UnitMap.Step)",
     "order of user callbacks vs. table operations: Model.Assoc logs, for every create_unit / free_unit event, how many table elements hold the handle at that instant; theorem assoc_handle_unmapped_when_recyclable; the API harness records the same count white-box inside its callbacks (read-only walk of p_global->unit_to_thread_entires) and the oracle requires it to equal the number of OTHER outstanding units with that handle (0 unless pools share a handle)",
     "T1: token-level skeletons of unit.c, the abti_unit.h inline functions and the thread.c/task.c/self.c/stream.c/ythread.c/pool.c callers are compared with the committed ones (skel/expected); a difference breaks the model=code obligation and triggers the enlarged search",
+    "bucket-lock discipline: Model.UnitMap part 2 (proof: at most one bucket lock per caller, a lock holder is never blocked) and its projection Model.UnitMapLock; T3: harness/sc_unitmap.c under vsched (actors = OS threads; crosswise re-associations between two user pools, buckets determined with the runtime's own map/unmap) - every tas/clear of a bucket spinlock must be accepted by Model.UnitMapLock, a deadlock is detected exactly (exit 97) on the explored schedules; fairness of OS threads assumed for the liveness reading",
     "harness/xs_recycle.c (two execution streams, LIFO handle recycling across them) is a native search aid only: real preemptive interleavings are not enumerated",
     "association model treats each of init_pool / set_associated_pool / unset_associated_pool as atomic (a work unit's association is changed only by the stream that owns it at that moment: it is not in any pool while pushed/migrated)",
     "a work unit whose unit is ABT_UNIT_NULL (after unset) is outside the contract of set_associated_pool (Model.Assoc returns the build's actual behaviour but the theorems assume it does not happen)",
@@ -538,11 +540,26 @@ def xs_recycle(res, tier):
                       {"scenario": "xs_recycle", "iterations": iters, "cmd": "%s %d" % (exe, iters), "output": out[-1500:]})
 
 
+def t3_params(rng):
+    nes = 2 + rng.below(3)
+    nact = 2 + rng.below(4)
+    return [nes, nact, 2 + rng.below(5), rng.choice([0, 30, 60])]
+
+
+def t3_locks(res, tier, broken):
+    """controlled-scheduler runs of harness/sc_unitmap.c: crosswise re-associations; bucket-lock events validated
+    against Model.UnitMapLock; deadlocks found exactly by vsched"""
+    vs.campaign(res, broken, tier, "C14", "sc_unitmap", ["sc_unitmap.c"], t3_params, t3_unitmap.validate,
+                sizes={"quick": (14, 4), "thorough": (120, 8), "search": (120, 8)},
+                reject_is_failure=vs.protocol_reject_is_failure)
+
+
 def run(res, tier, broken):
     n, tb = skel.check(T1_FUNCS)
     res.add_cov(t1_functions=n, t1_broken=len(tb))
     for b in tb:
         broken.append({"kind": "T1-skeleton", **b})
+    t3_locks(res, tier, broken)
     exe_wb = C.cc_harness("wb_unitmap", ["wb_unitmap.c"], "san", extra="-lpthread")
     exe_api = C.cc_harness("api_userpool", ["api_userpool.c"], "plain")
     rng = C.Rng(res.seed * 7919 + 14)
@@ -567,6 +584,8 @@ def run(res, tier, broken):
 
 def replay(res, path):
     rep = json.load(open(path))
+    if rep.get("scenario") == "sc_unitmap":
+        return vs.replay("sc_unitmap", ["sc_unitmap.c"], path, t3_unitmap.validate)
     if rep.get("scenario") == "xs_recycle":
         exe = C.cc_harness("xs_recycle", ["xs_recycle.c"], "plain")
         rc, out = C.sh([exe, str(rep.get("iterations", 600))], timeout=300)
